@@ -284,7 +284,7 @@ func TestVP_C33_PipeSeq(t *testing.T) {
 		m := &vpC33SeqModel{pc: pc}
 		m.conn[0], m.conn[1] = pc.Conn1(), pc.Conn2()
 		m.wch[0], m.wch[1] = pc.c1.wCh, pc.c2.wCh
-		defer pc.Close() //nolint:errcheck
+		defer pc.Close()                                           //nolint:errcheck
 		closeWeight := rapid.IntRange(0, 3).Draw(t, "closeWeight") // 0: never close inside the sequence
 		var log []string
 		t.Repeat(map[string]func(*rapid.T){
@@ -482,8 +482,8 @@ func TestVP_C33_PipeConc(t *testing.T) {
 		}
 		errs := &vpC33Errs{}
 		var segs [2][]vpC33Seg
-		var got [2][]byte    // bytes read at end e (written at 1-e)
-		var gotAtEOF [2]int  // len(got[e]) when the reader first saw EOF
+		var got [2][]byte   // bytes read at end e (written at 1-e)
+		var gotAtEOF [2]int // len(got[e]) when the reader first saw EOF
 		var rdTimeouts [2]int
 		var wrTimeouts [2]int
 		var writersWG, allWG sync.WaitGroup
